@@ -1,8 +1,13 @@
-"""sqlite3 proxy that numbers every SQL step (execute / commit) of a Journaler.
+"""SQL step hook for a Journaler: every statement SQLite starts to execute is one numbered step.
 
-Installed by replacing the name ``sqlite3`` inside ``asyncfix.journaler`` (no
-source hook needed).  A step hook may stop the process (crash point) or take a
-snapshot of the database files.
+Installed by replacing the name ``sqlite3`` inside ``asyncfix.journaler`` with a
+stand-in whose ``connect`` returns a REAL sqlite3 connection that carries a
+trace callback (no source hook, no proxy objects: attribute assignments such as
+``isolation_level`` reach the real connection).  The callback fires when a
+statement starts - including the implicit ``BEGIN`` / ``COMMIT`` Python's sqlite3
+issues and every statement inside an ``executescript`` - so a step hook that stops
+the process (crash point) or copies the database files (snapshot) sees exactly
+what a process dying between two statements leaves behind.
 """
 import sqlite3 as _real
 
@@ -20,60 +25,6 @@ class Steps:
         self.log.append((kind, sql[:40]))
 
 
-class ProxyCursor:
-    def __init__(self, cur, steps):
-        self._c = cur
-        self._s = steps
-
-    def execute(self, sql, *a):
-        self._s.hit("execute", sql)
-        return self._c.execute(sql, *a)
-
-    def __iter__(self):
-        return iter(self._c)
-
-    def __next__(self):
-        return next(self._c)
-
-    def __getattr__(self, k):
-        return getattr(self._c, k)
-
-
-class ProxyConn:
-    def __init__(self, conn, steps):
-        object.__setattr__(self, "_conn", conn)
-        object.__setattr__(self, "_s", steps)
-
-    def __setattr__(self, k, v):
-        # isolation_level, row_factory, ... belong to the real connection
-        setattr(self._conn, k, v)
-
-    def execute(self, sql, *a):
-        self._s.hit("execute", sql)
-        return self._conn.execute(sql, *a)
-
-    def executescript(self, sql):
-        self._s.hit("execute", sql)
-        return self._conn.executescript(sql)
-
-    def rollback(self):
-        self._s.hit("rollback")
-        return self._conn.rollback()
-
-    def cursor(self):
-        return ProxyCursor(self._conn.cursor(), self._s)
-
-    def commit(self):
-        self._s.hit("commit")
-        return self._conn.commit()
-
-    def close(self):
-        return self._conn.close()
-
-    def __getattr__(self, k):
-        return getattr(self._conn, k)
-
-
 class ProxyModule:
     """Stands in for the sqlite3 module inside asyncfix.journaler."""
 
@@ -81,7 +32,10 @@ class ProxyModule:
         self.steps = steps
 
     def connect(self, *a, **kw):
-        return ProxyConn(_real.connect(*a, **kw), self.steps)
+        conn = _real.connect(*a, **kw)
+        steps = self.steps
+        conn.set_trace_callback(lambda sql: steps.hit("sql", sql))
+        return conn
 
     def __getattr__(self, k):
         return getattr(_real, k)
